@@ -163,6 +163,14 @@ func checkC27(p *Prog, r *Report) {
 			if !skips && same {
 				okk = true
 			}
+			// the file loop is unavoidable: every return of Aggregate lies behind the loop header
+			reached := true
+			for _, ret := range returnsOf(agg) {
+				if len(l.header.Instrs) == 0 || !instrDominates(l.header.Instrs[0], ret) {
+					reached = false
+				}
+			}
+			r.check(reached, rule, "the per-file merge cannot be bypassed", p.pos(agg.Pos()), fnName(agg), "the loop over cov.Files dominates every return of Aggregate", "Aggregate can return before merging the incoming per-file coverage (e.g. when every test label is already known): coverage of a repeated or re-run test is dropped, and which run survives depends on the order in which results arrive")
 		}
 		r.check(okk, rule, "every incoming file is merged into the entry of the same name", p.pos(agg.Pos()), fnName(agg), "each iteration over cov.Files stores Merge(coverage.Files[name], lines) back under name", "Aggregate can skip a file of the incoming coverage, or merges it into another file's entry")
 	}
@@ -454,6 +462,108 @@ func checkC26(p *Prog, r *Report) {
 				}
 			}
 			r.check(both["Name"] && both["ClassName"], rule, "executions are merged into the case with the same class name and name", p.pos(fm.Pos()), fnName(fm), "a match requires equality of both Name and ClassName", "test cases are merged on fewer than (class name, name): different tests' executions are folded into one case")
+		} else if add := p.Fn("core", "TestSuite.Add"); add == nil {
+			r.unresolved(rule, "core.TestSuite.Add / findMatchingTestCase")
+		} else {
+			// no matching helper: the identity of a case is whatever selects the element whose Executions are appended to
+			inst := "executions are merged into the case with the same class name and name"
+			decided := false
+			eachInstr(add, false, func(_ *ssa.Function, i ssa.Instruction) {
+				st, ok := i.(*ssa.Store)
+				if !ok || fieldKey(st.Addr) != "core.TestCase.Executions" || decided {
+					return
+				}
+				// (a) equality facts on both fields at the append
+				both := map[string]bool{}
+				for _, f := range factsAt(st) {
+					if bo, ok := f.V.(*ssa.BinOp); ok && bo.Op == token.EQL && f.Val {
+						for t := range tagsOf(bo.X, SliceOpts{}) {
+							if strings.HasPrefix(t, "core.TestCase.") {
+								both[strings.TrimPrefix(t, "core.TestCase.")] = true
+							}
+						}
+					}
+				}
+				if both["Name"] && both["ClassName"] {
+					decided = true
+					r.ok(rule, inst, p.pos(st.Pos()), fnName(add), "the append is under equality of both Name and ClassName")
+					return
+				}
+				// (b) the element index comes from a map: the key must keep the two fields apart
+				var idx ssa.Value = st.Addr
+				if fa, ok := st.Addr.(*ssa.FieldAddr); ok {
+					if ia, ok := fa.X.(*ssa.IndexAddr); ok {
+						idx = ia.Index
+					}
+				}
+				for x := range backSlice(idx, SliceOpts{}) {
+					lk, ok := x.(*ssa.Lookup)
+					if !ok {
+						continue
+					}
+					mt, ok := lk.X.Type().Underlying().(*types.Map)
+					if !ok {
+						continue
+					}
+					decided = true
+					if stt, ok := mt.Key().Underlying().(*types.Struct); ok && stt.NumFields() >= 2 {
+						r.ok(rule, inst, p.pos(st.Pos()), fnName(add), "cases are indexed by a struct key of "+itoa(stt.NumFields())+" fields")
+					} else {
+						r.bad(rule, inst, p.pos(st.Pos()), fnName(add), "test cases are matched through a map keyed by "+typeString(mt.Key())+": class name and name are folded into one value, so (class `a.b`, name `c`) and (class `a`, name `b.c`) are the same case; a failing test merged into a passing one is reported as a flaky pass")
+					}
+					return
+				}
+			})
+			if !decided {
+				r.unresolved(rule, "what selects the test case that TestSuite.Add appends executions to")
+			}
+		}
+	}
+	// every repeated child element of a <testcase> becomes executions whatever the other children are
+	rule = "E10.every-retry-element-is-read"
+	if ar, tt := p.Fn("test", "appendResult"), p.Type("test", "jUnitXMLTest"); ar == nil || tt == nil {
+		r.unresolved(rule, "test.appendResult / test.jUnitXMLTest")
+	} else if stt, ok := tt.Underlying().(*types.Struct); ok {
+		nF := 0
+		for k := 0; k < stt.NumFields(); k++ {
+			f := stt.Field(k)
+			if _, isSl := f.Type().Underlying().(*types.Slice); !isSl {
+				continue
+			}
+			nF++
+			key := "test.jUnitXMLTest." + f.Name()
+			always := false
+			for _, l := range sliceRangeLoops(ar) {
+				if !tagsOf(l.over, SliceOpts{})[key] || len(l.header.Instrs) == 0 {
+					continue
+				}
+				// the loop, or the `len(field) > 0` test that guards nothing but the loop, lies on every path to a return
+				cands := []*ssa.BasicBlock{l.header}
+				for b := l.header.Idom(); b != nil; b = b.Idom() {
+					if iff, ok := lastIf(b); ok {
+						if bo, ok := iff.Cond.(*ssa.BinOp); ok && tagsOf(bo.X, SliceOpts{})[key] {
+							if z, isC := constInt(bo.Y); isC && z == 0 {
+								cands = append(cands, b)
+							}
+						}
+					}
+				}
+				for _, b := range cands {
+					dom := true
+					for _, ret := range returnsOf(ar) {
+						if !b.Dominates(ret.Block()) {
+							dom = false
+						}
+					}
+					if dom {
+						always = true
+					}
+				}
+			}
+			r.check(always, rule, "appendResult reads every <"+f.Name()+"> element", p.pos(ar.Pos()), fnName(ar), "the loop over test."+f.Name()+" (or its own emptiness test) is on every path through appendResult", "the "+f.Name()+" elements of a test case are read only for some outcomes of the case (e.g. rerunError only next to <error>): a case whose retries mix kinds loses executions, so the number of attempts and the failed/errored verdict no longer match the results file")
+		}
+		if nF < 4 {
+			r.unresolved(rule, "repeated child elements of jUnitXMLTest (found "+itoa(nF)+")")
 		}
 	}
 	rule = "E12.results-files"
